@@ -100,9 +100,9 @@ fn c06_map_pairs<const C: usize>(item: MS<C>, expect_atoms: bool) {
     cov!(expect_atoms || n == 0, "no atoms");
 }
 //@ heavy=1 tier=thorough mem=20
-harness!(c06_map_empty, 5, { c06_map_pairs(map_sets::<2>(&[]), false); });
+harness!(c06_map_empty, 5, { c06_map_pairs(map_sets::<1>(&[]), false); });
 //@ heavy=1 tier=thorough mem=20
-harness!(c06_map_one_key_bottom_value, 5, { c06_map_pairs(map_sets::<2>(&[(3, 0)]), false); });
+harness!(c06_map_one_key_bottom_value, 5, { c06_map_pairs(map_sets::<1>(&[(3, 0)]), false); });
 // quick: map capacity 1 (160 s / 11 GB; capacity 2: 400 s / 15 GB)
 //@ heavy=1 mem=16
 harness!(c06_map_cap1_one_key_2, 5, { c06_map_pairs(map_sets::<1>(&[(3, 2)]), true); });
